@@ -19,7 +19,7 @@ from inferno.observe import (NearestTraceReducer, CumulativeTraceReducer, Scaled
                              ConditionalNearestTraceReducer, ConditionalCumulativeTraceReducer, EventReducer, PassthroughReducer,
                              EMAReducer, CAReducer)
 
-from mc.common import Tally
+from mc.common import Tally, Guard
 from mc.pool import run_shards
 
 ID = "C07"
@@ -144,16 +144,20 @@ def run_sequence(kind, dt0, tau, amp, duration, inplace, seq, inclusive=False):
     events = []
     now = 0.0
     dt = dt0
+    mutated = []
+    object.__setattr__(r, "_verif_mutated", mutated)
     for op in seq:
         if op[0] == "obs":
             obs = L[op[1]]
             cond = BOOL_LETTERS[(op[1] + 1) % 4]
             now += dt
             events.append((now, obs, cond))
-            if kind in ("cnearest", "ccumulative"):
-                r(torch.tensor(obs), torch.tensor(cond).bool())
-            else:
-                r(torch.tensor(obs))
+            args = (torch.tensor(obs), torch.tensor(cond).bool()) if kind in ("cnearest", "ccumulative") else (torch.tensor(obs),)
+            g = Guard(*args)
+            r(*args)
+            # the observation comes back untouched and the record keeps a copy, not an alias (it is overwritten before any view)
+            if not g.release():
+                mutated.append(len(events))
         elif op[0] == "clear":
             r.clear(keepshape=op[1])
             events = []
@@ -171,6 +175,9 @@ def check_node(tally, cfg, kind, dt0, tau, amp, duration, inplace, seq, inclusiv
         tally.violation(f"exception:{kind}:{seq[-1][0]}:{type(ex).__name__}", case, f"{type(ex).__name__}: {ex}", None, repr(ex))
         return False
     ok = True
+    if getattr(r, "_verif_mutated", None):
+        tally.violation(f"input-mutated:{kind}", case, "the reducer modified the caller's observation tensor in place")
+        ok = False
     pk = r.peek()
     lt = r.latest
     if not events:
